@@ -27,8 +27,10 @@ ASSUMPTIONS = [
 WITNESSES = ["a copy was attempted", "hostile component would leave the destination"]
 
 HOSTILE_NAMES = ["..", ".", "", "/abs", "a/../../b", "x/y", "../..", "../../..", "../../../..",
-                 "../dest-old", "../destX/y", "/jail/dest_abs"]          # siblings whose name extends the destination's own
-HOSTILE_COMPS = ["..", ".", "", "/abs", "a/../../b", "x/y", "../../dest.bak"]
+                 "../dest-old", "../destX/y", "/jail/dest_abs",          # siblings whose name extends the destination's own
+                 "../other/../dest/back", "n/../../other2/../dest/n"]     # out and back in: the final path is inside
+HOSTILE_COMPS = ["..", ".", "", "/abs", "a/../../b", "x/y", "../../dest.bak",
+                 "../../other/../dest", "../../dest/../other/../dest/name"]     # leave and come back: ends inside, passes through outside
 
 
 def BOUNDS(tier):
@@ -46,7 +48,7 @@ def jobs(tier):
             out.append(("v%d.name.%d" % (version, i), "job", dict(version=version, name=nm, comps=None)))
         for i, c in enumerate(HOSTILE_COMPS):
             out.append(("v%d.first.%d" % (version, i), "job", dict(version=version, name="name", comps=[c, "f.bin"])))
-            if tier != "quick" or i in (0, 3, 4):
+            if tier != "quick" or i in (0, 3, 4, 7):
                 out.append(("v%d.middle.%d" % (version, i), "job", dict(version=version, name="name", comps=["d", c, "f.bin"])))
     for i, nm in enumerate(HOSTILE_NAMES):
         out.append(("v1.single.name.%d" % i, "job", dict(version=1, name=nm, comps=None, single=True)))
